@@ -24,8 +24,8 @@ CHECKS = {
     "_utils.py": ["C17", "C14", "C16"],
     "_cli.py": ["C16"],
     "_event.py": ["C10", "C11", "C06"],
-    "_context.py": ["C01", "C03", "C04", "C13", "C19", "C12", "C08"],
-    "_component.py": ["C05", "C06", "C07", "C14"],
+    "_context.py": ["C01", "C02", "C03", "C04", "C13", "C18", "C19", "C12", "C08"],
+    "_component.py": ["C05", "C06", "C07", "C14", "C19"],
     "_concurrent.py": ["C08", "C09"],
     "_runner.py": ["C15"],
     "_exceptions.py": ["C07"],
